@@ -83,7 +83,11 @@ EXERCISED = (
     "it again; reconnections whose very first write fails; sockets with no connection "
     "subscriber, no message subscriber or none at all; version lists with the same strings "
     "in another order or multiplicity; caller-supplied headers equal to the header of a "
-    "message that is still waiting; a capability bit as the only change in a status frame")
+    "message that is still waiting; a capability bit as the only change in a status frame; "
+    "retry lifetimes given as ints; two subscribers that wait for each other on every frame; "
+    "shutdown at every loop iteration after a failed write with a second life half a second "
+    "later; dozens of connections in a row that each end in rejected input; sensor zones "
+    "that report no reading; temperatures far below zero")
 
 T = """You are helping to evaluate a verification harness by producing a *subtle, realistic regression* in a Python library.
 
